@@ -26,3 +26,55 @@ package schema
 //@ contract (schema.DependencyKeys).MarshalJSON$2 (i, j) (less)
 //@   requires 0 <= i && i < len(sk.Attributes) && 0 <= j && j < len(sk.Attributes)
 //@   ensures [C16] less == (sk.Attributes[i].Name < sk.Attributes[j].Name)
+
+// ---- C06: tab-stop numbering of snippets. A constraint asked for completion data from stop p uses the
+// ---- stops p .. NextPlaceholder-1. Composite constraints hand every nested constraint the running counter
+// ---- and continue from the NextPlaceholder it returns, so that the numbers of one snippet are consecutive
+// ---- and each is used once; the degenerate forms use exactly the one stop they print. A result without
+// ---- text (Reference: "ask again") carries no counter; every composite tests for it before continuing.
+//@ spec hasText(cd schema.CompletionData) bool = cd.NewText != "" && cd.Snippet != ""
+//@ iface schema.Constraint.EmptyCompletionData (ctx, nextPlaceholder, nestingLevel) (result)
+//@   ensures [C06] implies(hasText(result), result.NextPlaceholder >= nextPlaceholder)
+//@ contract (schema.LiteralValue).EmptyCompletionData (lv, ctx, nextPlaceholder, nestingLevel) (result)
+//@   loop 1 invariant [C06] lastPlaceholder >= nextPlaceholder
+//@   loop 2 invariant [C06] lastPlaceholder >= nextPlaceholder
+//@   loop 3 invariant [C06] lastPlaceholder >= nextPlaceholder
+//@   loop 4 invariant [C06] lastPlaceholder >= nextPlaceholder
+//@   assert before (schema.LiteralValue).EmptyCompletionData#1 : [C06] arg2 == lastPlaceholder
+//@   assert before (schema.LiteralValue).EmptyCompletionData#2 : [C06] arg2 == lastPlaceholder
+//@   assert before (schema.LiteralValue).EmptyCompletionData#3 : [C06] arg2 == lastPlaceholder
+//@   assert before (schema.LiteralValue).EmptyCompletionData#4 : [C06] arg2 == lastPlaceholder
+//@   loop 1 iter [C06] lastPlaceholder == cData.NextPlaceholder
+//@   loop 2 iter [C06] lastPlaceholder == cData.NextPlaceholder
+//@   loop 3 iter [C06] lastPlaceholder == cData.NextPlaceholder
+//@   loop 4 iter [C06] lastPlaceholder == cData.NextPlaceholder
+//@   ensures [C06] implies(hasText(result), result.NextPlaceholder >= nextPlaceholder)
+//@ contract (schema.Tuple).EmptyCompletionData (t, ctx, nextPlaceholder, nestingLevel) (result)
+//@   loop 1 invariant [C06] lastPlaceholder >= nextPlaceholder
+//@   assert before invoke:EmptyCompletionData#1 : [C06] arg1 == lastPlaceholder
+//@   loop 1 iter [C06] lastPlaceholder == cData.NextPlaceholder
+//@   ensures [C06] implies(hasText(result), result.NextPlaceholder >= nextPlaceholder)
+//@   ensures [C06] implies(result.NextPlaceholder != nextPlaceholder + 1, result.NextPlaceholder == lastPlaceholder)
+//@ contract (schema.List).EmptyCompletionData (l, ctx, nextPlaceholder, nestingLevel) (result)
+//@   assert before invoke:EmptyCompletionData#1 : [C06] arg1 == nextPlaceholder
+//@   ensures [C06] implies(hasText(result), result.NextPlaceholder >= nextPlaceholder)
+//@   ensures [C06] implies(result.NextPlaceholder != nextPlaceholder + 1, result.NextPlaceholder == elemData.NextPlaceholder)
+//@ contract (schema.Set).EmptyCompletionData (s, ctx, nextPlaceholder, nestingLevel) (result)
+//@   assert before invoke:EmptyCompletionData#1 : [C06] arg1 == nextPlaceholder
+//@   ensures [C06] implies(hasText(result), result.NextPlaceholder >= nextPlaceholder)
+//@   ensures [C06] implies(result.NextPlaceholder != nextPlaceholder + 1, result.NextPlaceholder == elemData.NextPlaceholder)
+//@ contract (schema.Map).EmptyCompletionData (m, ctx, nextPlaceholder, nestingLevel) (result)
+//@   assert before invoke:EmptyCompletionData#1 : [C06] arg1 == nextPlaceholder + 1
+//@   ensures [C06] implies(hasText(result), result.NextPlaceholder >= nextPlaceholder + 1)
+//@   ensures [C06] implies(result.NextPlaceholder != nextPlaceholder + 1, result.NextPlaceholder == elemData.NextPlaceholder)
+//@ contract (schema.OneOf).EmptyCompletionData (o, ctx, nextPlaceholder, nestingLevel) (result)
+//@   assert before invoke:EmptyCompletionData#1 : [C06] arg1 == nextPlaceholder
+//@   ensures [C06] implies(hasText(result), result.NextPlaceholder >= nextPlaceholder)
+//@   ensures [C06] implies(len(o) > 0, result.NextPlaceholder == cData.NextPlaceholder)
+//@ contract (schema.Object).attributesCompletionData (o, ctx, placeholder, nestingLevel) (result, ok)
+//@   loop 1 invariant [C06] nextPlaceholder >= placeholder
+//@   assert before invoke:EmptyCompletionData#1 : [C06] arg1 == nextPlaceholder
+//@   loop 1 iter [C06] nextPlaceholder == old(nextPlaceholder) || nextPlaceholder == attrData.NextPlaceholder
+//@   ensures [C06] implies(ok, result.NextPlaceholder >= placeholder)
+//@ contract (schema.Object).EmptyCompletionData (o, ctx, placeholder, nestingLevel) (result)
+//@   ensures [C06] implies(hasText(result), result.NextPlaceholder >= placeholder)
